@@ -6,6 +6,7 @@ valid documents must be accepted and the returned statechart must satisfy the st
 public queries by an independent checker)."""
 import copy
 import json
+import re
 
 from ..common import import_sismic
 from ..gen import gen_chart
@@ -283,7 +284,8 @@ def run_case(acc, rnd, tier, case):
 def judge(acc, d2, applied, wit):
     # two thirds of the mutants travel as JSON text (a YAML flow-style document, much faster to produce)
     if (len(applied) + applied[0][2]) % 3:
-        text = json.dumps(d2, ensure_ascii=False)
+        # (characters a YAML stream may not contain verbatim, or that it treats as line breaks, travel as \uXXXX escapes)
+        text = re.sub('[\x7f-\x9f\u2028\u2029\ufeff\ufffe\uffff]', lambda m: '\\u%04x' % ord(m.group()), json.dumps(d2, ensure_ascii=False))
         acc.count('documents_as_flow_style_json')
     else:
         text = build.dump_yaml(d2)
